@@ -2,7 +2,8 @@
 #
 #   pool_size_arg          base_codemod.BaseCodemod._apply: argument list of ThreadPoolExecutor(...)
 #   sched_collect          base_codemod.BaseCodemod._apply: executor.map + process_results after the `with` block
-#   sched_task_local       base_codemod.BaseCodemod._process_file: one fresh FileContext, no store on shared objects
+#   sched_task_local       _process_file, the Libcst/Regex/XML pipelines' apply, LibcstResultTransformer.transform/__init__,
+#                          FileContext: one fresh per-file object each, no store / mutating call on shared objects
 #   sched_results_in_order context.process_results / add_* / files_to_analyze / find_and_fix_paths
 #   entry_point_iteration  registry.load_registered_codemods: what the loop iterates over
 #   sched_registry_follows registry.match_codemods / add_codemod_collection: selection follows the registry order
@@ -148,7 +149,114 @@ def _sched_task_local(tree, repo):
     rets = [n for n in ast.walk(fn) if isinstance(n, ast.Return)]
     if not rets or not all(_sched_is_name(r.value, "file_context") for r in rets):
         raise Unrecognised("_process_file does not return its own file_context on every path")
-    return "true"
+    # what _process_file calls with the shared objects in hand: the pipelines' apply methods, the per-file transformer
+    # construction, and FileContext itself
+    for rel, quals in _SCHED_LOCAL_SCAN:
+        try:
+            mod = ast.parse((repo / rel).read_text(encoding="utf-8"))
+        except (OSError, SyntaxError) as e:
+            raise Unrecognised(f"cannot read {rel}: {e}")
+        for q in quals:
+            d = find_def(mod, q)
+            if d is None:
+                raise Unrecognised(f"{q} not found in {rel}")
+            _sched_scan_shared(d, q)
+    _sched_scan_file_context(repo)
+    return "TaskLocal"
+
+
+_SCHED_LOCAL_SCAN = [
+    ("src/codemodder/codemods/libcst_transformer.py",
+     ["LibcstTransformerPipeline.apply", "LibcstResultTransformer.transform", "LibcstResultTransformer.__init__"]),
+    ("src/codemodder/codemods/regex_transformer.py",
+     ["RegexTransformerPipeline.apply", "RegexTransformerPipeline._apply", "RegexTransformerPipeline._apply_regex",
+      "SastRegexTransformerPipeline._apply"]),
+    ("src/codemodder/codemods/xml_transformer.py", ["XMLTransformerPipeline.apply"]),
+]
+_SCHED_MUTATORS = {"append", "extend", "add", "update", "insert", "pop", "popitem", "remove", "discard", "clear", "setdefault",
+                   "sort", "reverse", "__setitem__", "__delitem__", "__setattr__", "add_changesets", "add_failures",
+                   "add_dependencies", "add_unfixed_findings", "process_results", "process_dependencies", "aggregate",
+                   "add_description", "write", "seek", "truncate"}
+
+
+def _sched_root(node):
+    while isinstance(node, (ast.Attribute, ast.Subscript, ast.Call)):
+        node = node.func if isinstance(node, ast.Call) else node.value
+    return node.id if isinstance(node, ast.Name) else None
+
+
+def _sched_scan_shared(fn, qual):
+    """No per-file state on objects the worker threads share.  In a pipeline's apply / a classmethod, `self`/`cls`
+    (the pipeline, shared by every file of the codemod) and `context` (the run context) are shared; `file_context`,
+    the transformer instance built inside, and locals are the task's own.  __init__ of the per-file transformer
+    stores on its own fresh `self`, which is fine; there only `context`/class attributes are shared."""
+    own_self = qual.endswith(".__init__")
+    shared = {"context", "cls"} | (set() if own_self else {"self"})
+    params = {a.arg for a in fn.args.args}
+    if qual.endswith(".apply") and not {"self", "context", "file_context"} <= params:
+        raise Unrecognised(f"{qual} does not take (self, context, file_context, ...)")
+    cls_name = qual.split(".")[0]
+    for n in ast.walk(fn):
+        if isinstance(n, (ast.Global, ast.Nonlocal)):
+            raise Unrecognised(f"{qual} declares global/nonlocal names")
+        targets = []
+        if isinstance(n, ast.Assign):
+            targets = n.targets
+        elif isinstance(n, (ast.AugAssign, ast.AnnAssign)):
+            targets = [n.target]
+        elif isinstance(n, ast.Delete):
+            targets = n.targets
+        elif isinstance(n, ast.NamedExpr):
+            targets = [n.target]
+        for t in targets:
+            for sub in ast.walk(t):
+                if isinstance(sub, (ast.Attribute, ast.Subscript)) and (_sched_root(sub) in shared or _sched_root(sub) == cls_name):
+                    raise Unrecognised(f"{qual} stores into a shared object: " + ast.unparse(t)[:80])
+        if isinstance(n, ast.Call) and isinstance(n.func, ast.Attribute):
+            root = _sched_root(n.func.value)
+            if root == "context":
+                raise Unrecognised(f"{qual} calls a method of the shared run context: " + ast.unparse(n)[:80])
+            if (root in shared or root == cls_name) and n.func.attr in _SCHED_MUTATORS:
+                raise Unrecognised(f"{qual} calls a mutating method on a shared object: " + ast.unparse(n)[:80])
+        if isinstance(n, ast.Call) and _sched_is_name(n.func, "setattr") and n.args and _sched_root(n.args[0]) in shared:
+            raise Unrecognised(f"{qual} uses setattr on a shared object")
+
+
+def _sched_scan_file_context(repo):
+    """FileContext: a dataclass whose mutable fields all come from default_factory (nothing shared between instances),
+    whose methods store on `self` only."""
+    rel = "src/codemodder/file_context.py"
+    try:
+        mod = ast.parse((repo / rel).read_text(encoding="utf-8"))
+    except (OSError, SyntaxError) as e:
+        raise Unrecognised(f"cannot read {rel}: {e}")
+    cls = find_def(mod, "FileContext")
+    if cls is None or not any((_sched_is_name(d, "dataclass") or (isinstance(d, ast.Call) and _sched_is_name(d.func, "dataclass")))
+                              for d in cls.decorator_list):
+        raise Unrecognised("FileContext is not a @dataclass")
+    for st in cls.body:
+        if isinstance(st, ast.Assign):
+            raise Unrecognised("FileContext has a class-level attribute shared by its instances: " + ast.unparse(st)[:60])
+        if isinstance(st, ast.AnnAssign) and st.value is not None:
+            v = st.value
+            ok = isinstance(v, ast.Constant) or (isinstance(v, ast.Call) and _sched_is_name(v.func, "field")
+                                                 and not v.args and [k.arg for k in v.keywords] == ["default_factory"]
+                                                 and isinstance(v.keywords[0].value, ast.Name))
+            if not ok:
+                raise Unrecognised("FileContext field default is neither a constant nor field(default_factory=<type>): "
+                                   + ast.unparse(st)[:80])
+        if isinstance(st, ast.FunctionDef):
+            for n in ast.walk(st):
+                if isinstance(n, (ast.Global, ast.Nonlocal)):
+                    raise Unrecognised(f"FileContext.{st.name} declares global/nonlocal names")
+                targets = n.targets if isinstance(n, ast.Assign) else [n.target] if isinstance(n, (ast.AugAssign, ast.AnnAssign)) else []
+                for t in targets:
+                    for sub in ast.walk(t):
+                        if isinstance(sub, (ast.Attribute, ast.Subscript)) and _sched_root(sub) != "self":
+                            raise Unrecognised(f"FileContext.{st.name} stores outside self: " + ast.unparse(t)[:60])
+                if isinstance(n, ast.Call) and isinstance(n.func, ast.Attribute) and n.func.attr in _SCHED_MUTATORS \
+                        and _sched_root(n.func.value) not in ("self", None) and _sched_root(n.func.value) not in {a.arg for a in st.args.args}:
+                    raise Unrecognised(f"FileContext.{st.name} mutates a non-local object: " + ast.unparse(n)[:60])
 
 
 def _sched_positive_int(tree, node):
@@ -210,8 +318,9 @@ custom("sched_collect", "src/codemodder/codemods/base_codemod.py", _SCHED_PROPS,
        "sched_collect", "collect_form", "MapInputOrder", _sched_collect,
        doc="BaseCodemod._apply: contexts = executor.map(process_file, files_to_analyze); process_results after the with block")
 custom("sched_task_local", "src/codemodder/codemods/base_codemod.py", _SCHED_PROPS,
-       "sched_task_local", "bool", "true", _sched_task_local,
-       doc="BaseCodemod._process_file: one fresh FileContext per file, nothing stored on self/context/results")
+       "sched_task_local", "locality_form", "TaskLocal", _sched_task_local,
+       doc="_process_file, Libcst/Regex/XML pipeline apply, LibcstResultTransformer.transform/__init__, FileContext: per-file state "
+           "is task-local (no store / mutating call on self, cls, context, results)")
 custom("sched_max_workers_default", "src/codemodder/cli.py", _SCHED_PROPS,
        "max_workers_default", "N", 1, _sched_max_workers_default, printer=lambda v: f"{int(v)}%N",
        doc="--max-workers (type=int, default) -> argv.max_workers -> context.max_workers")
